@@ -195,3 +195,23 @@ Theorem install_mode_dash_m : forall ds m,
   ds <> [] -> nosep 32 ds -> octal ds = Some m -> install_mode (Some (lit "-m" ++ ds)) = Some (Some m).
 Proof. exact install_mode_dash_m_proof. Qed.
 Print Assumptions install_mode_dash_m.
+
+(* ---- set-id modes together with -o/-g ---- *)
+
+(* the installed file has exactly the requested mode, all twelve bits (ownership is applied
+   before the mode, so -o/-g cannot strip set-uid/set-gid/sticky bits requested with -m) *)
+Theorem installed_mode_is_requested : forall um s cid p m s',
+  exec1 um s (AInstall (FReg cid) p (Some m)) = inl s' ->
+  lookup (key p) (s_img s') = Some (NFile m cid (s_ino s)).
+Proof. exact installed_mode_is_requested_proof. Qed.
+Print Assumptions installed_mode_is_requested.
+
+(* and the requested mode is independent of owner/group options in the option string *)
+Theorem owner_options_keep_mode : forall v i ws mode f,
+  owner_id v = Some i ->
+  install_mode_words (lit "-o" :: v :: ws) mode (S f) = install_mode_words ws mode f
+  /\ install_mode_words (lit "-g" :: v :: ws) mode (S f) = install_mode_words ws mode f
+  /\ install_mode_words (lit "--owner" :: v :: ws) mode (S f) = install_mode_words ws mode f
+  /\ install_mode_words (lit "--group" :: v :: ws) mode (S f) = install_mode_words ws mode f.
+Proof. exact owner_options_keep_mode_proof. Qed.
+Print Assumptions owner_options_keep_mode.
